@@ -13,11 +13,14 @@ from gvmon.monitors import contracts
 RULE = ("files = interleavings of directive/comment/blank/feature lines: all sequences of <= 5 (quick) / <= 8 (thorough) "
         "line kinds x checklines {0,1,2,10}, and random files with 0..30 features before a directive, with/without a "
         "##FASTA or bare '>' section holding ##-looking and tab-separated lines, LF and CRLF, path, gzip path and from_string, "
-        "inferred and supplied dialect; non-trivial = a directive sits after feature number checklines+1 (beyond the "
+        "inferred and supplied dialect; random files whose directive texts have blanks/tabs at either end and empty tab-separated "
+        "columns; files with one directive/comment/feature line of 2^k+d characters, k=12..21 (quick) / ..23 (thorough); non-trivial = a directive sits after feature number checklines+1 (beyond the "
         "inspection window) or a FASTA section is present; distinct by (file text, checklines, input form)")
 REQUIRED = ["pairs of iterators with overlapping lifetimes", "DataIterator.directives compared", "db.directives compared", "reopened directives compared",
             "directives beyond the window observed", "files with FASTA section", "directives compared after update + delete + reopen", "files with bare CR line ends",
-            "db.directives compared after the caller's own iterator started another pass", "multi-member gzip files"]
+            "db.directives compared after the caller's own iterator started another pass", "multi-member gzip files",
+            "directives whose text ends with a tab", "directives whose text begins or ends with blanks or tabs",
+            "files with one very long line", "directives longer than 1 MiB compared"]
 ASSUMPTIONS = [
     "the FASTA section starts at a line that is exactly '##FASTA' or begins with '>'",
     "blank lines are truly empty (whitespace-only lines are not generated)",
@@ -92,13 +95,21 @@ def execute(ctx, case):
         except Exception as ex:
             ctx.violation(case, {"why": "two DataIterators with overlapping lifetimes: iteration raised %r" % (ex,)})
             return
-    lines = case["lines"]
+    lines = expand_long(ctx, case)
     ck = case["checklines"]
     eol = case.get("eol", "\n")
     text = eol.join(lines) + (eol if case.get("final_eol", True) else "")
     if eol == "\r":
         ctx.mon("files with bare CR line ends")
     exp_dir, exp_n = classify(lines)
+    if case.get("edge_ws"):
+        ctx.mon("directives whose text begins or ends with blanks or tabs", sum(1 for d in exp_dir if d != d.strip(" \t")))
+        ctx.mon("directives whose text ends with a tab", sum(1 for d in exp_dir if d.endswith("\t")))
+    if len(text) > 20000:
+        # long-line files: keep replay files and reports small (the case itself holds everything needed to rebuild the text)
+        def _short_violation(c, d, _v=ctx.violation):
+            _v(c, dict((k, elide(v)) for k, v in d.items()) if isinstance(d, dict) else d)
+        ctx = _Elided(ctx, _short_violation)
     supplied = case.get("supplied_dialect", False)
     kw = {"checklines": ck}
     if supplied:
@@ -260,6 +271,60 @@ def overlapping(ctx, case):
                 os.unlink(p)
 
 
+LONG_FILL = ["ACGT", "lorem ipsum ", "x #> ##y "]
+
+
+def expand_long(ctx, case):
+    """Lines of the case; with case['long'] = {index, length, fill} line `index` is padded to exactly `length` characters
+    with a repeated filler (the case stays small, the file does not)."""
+    lines = list(case["lines"])
+    lg = case.get("long")
+    if lg:
+        j, n = lg["index"], lg["length"]
+        fill = LONG_FILL[lg["fill"]]
+        pad = n - len(lines[j])
+        if pad > 0:
+            lines[j] = lines[j] + (fill * (pad // len(fill) + 1))[:pad]
+        ctx.mon("files with one very long line")
+        ctx.mon("longest line, characters (sum over files)", len(lines[j]))
+        if len(lines[j]) > (1 << 20):
+            ctx.mon("files with a line longer than 1 MiB")
+        if lines[j].startswith("##") and len(lines[j]) > (1 << 20):
+            ctx.mon("directives longer than 1 MiB compared")
+    return lines
+
+
+def elide(v):
+    if isinstance(v, str) and len(v) > 600:
+        return "%s ...[%d characters]... %s" % (v[:300], len(v), v[-100:])
+    if isinstance(v, (list, tuple)):
+        return [elide(x) for x in v]
+    return v
+
+
+class _Elided(object):
+    """ctx whose violation() shortens megabyte strings in the detail."""
+
+    def __init__(self, ctx, violation):
+        self.__dict__["_ctx"] = ctx
+        self.__dict__["violation"] = violation
+
+    def __getattr__(self, name):
+        return getattr(self._ctx, name)
+
+
+EDGE = ["", "", " ", "\t", "\t\t", " \t", "\t ", "   "]
+WORDS = ["contig", "chr2", "500", "species", "human", "sequence-region", "1", "note", "x", ""]
+
+
+def edge_ws_directive(rng):
+    """A directive line whose text has blanks/tabs at either end and between (possibly empty) columns: tab-delimited
+    payloads, padded lines, bare '##' + whitespace.  Never the FASTA marker."""
+    sep = rng.choice(["\t", " ", "\t\t", " \t", "  "])
+    body = sep.join(rng.choice(WORDS) for _ in range(rng.randrange(0, 5)))
+    return "##" + rng.choice(EDGE) + body + rng.choice(EDGE)
+
+
 def directives_beyond_window(lines, ck):
     """Number of directives located after feature number ck+1 (and before any FASTA section)."""
     nf = 0
@@ -345,6 +410,53 @@ def run(ctx):
             ctx.mon("files with FASTA section")
         ctx.case((lines, ck, case["input"], case["eol"], case["supplied_dialect"]),
                  bool(directives_beyond_window(lines, ck) or fasta), sample=None, cls="random file")
+    # directive texts with blanks/tabs at either end and empty tab-separated columns: recorded as the text after '##'
+    for _ in range(ctx.budget(400, 12000)):
+        ck = rng.choice([0, 1, 2, 10])
+        kinds = []
+        for _ in range(rng.randrange(1, 4)):
+            kinds += ["F"] * rng.randrange(0, 14)
+            kinds += [rng.choice("DDDCB")] * rng.randrange(1, 3)
+        kinds += ["F"] * rng.randrange(0, 3)
+        rng_f = rng.random()
+        fasta = "fasta" if rng_f < 0.15 else ("bare" if rng_f < 0.25 else None)
+        lines = build(kinds, fasta)
+        for j, k in enumerate(kinds):
+            if k == "D":
+                lines[j] = edge_ws_directive(rng)
+        case = {"kind": "file", "lines": lines, "checklines": ck, "input": rng.choice(["path", "path", "string", "gz"]),
+                "eol": "\r\n" if rng.random() < 0.15 else "\n", "final_eol": rng.random() < 0.9,
+                "supplied_dialect": rng.random() < 0.1, "edge_ws": True}
+        execute(ctx, case)
+        if fasta:
+            ctx.mon("files with FASTA section")
+        ctx.case((lines, ck, case["input"], case["eol"], case["supplied_dialect"]),
+                 bool(directives_beyond_window(lines, ck) or fasta), sample=None, cls="directive text with edge whitespace")
+    # one very long line (directive, comment or feature) among ordinary ones: line lengths around powers of two from 4 KiB
+    # to 2 MiB (quick) / 8 MiB (thorough) - the sizes of read buffers and of any per-line bound
+    ladder = list(range(12, 22)) if ctx.tier == "quick" else list(range(12, 24))
+    i = 0
+    for k in ladder:
+        for which in ("D", "C", "F"):
+            i += 1
+            if not ctx.mine(i):
+                continue
+            ck = rng.choice([0, 1, 2, 10])
+            kinds = ["D"] + ["F"] * rng.randrange(0, 4) + ["C"] + ["F"] * rng.randrange(0, 3) + ["X", "B", "D"] + ["F"] * rng.randrange(1, 3) + ["D"]
+            j = kinds.index("X")
+            kinds[j] = which
+            fasta = rng.choice([None, None, "fasta", "bare"])
+            lines = build(kinds, fasta)
+            if which == "F":
+                lines[j] += ";Note="
+            length = (1 << k) + rng.choice([-1, 0, 1, 2, 37, 1000])
+            case = {"kind": "file", "lines": lines, "checklines": ck, "input": rng.choice(["path", "string", "gz"]),
+                    "eol": rng.choice(["\n", "\n", "\r\n"]), "final_eol": True,
+                    "long": {"index": j, "length": length, "fill": rng.randrange(len(LONG_FILL)) if which != "F" else 0}}
+            execute(ctx, case)
+            if fasta:
+                ctx.mon("files with FASTA section")
+            ctx.case(("long", lines, ck, case["input"], case["eol"], length, case["long"]["fill"]), True, cls="file with one very long line")
 
 
 MANIFEST = {
@@ -353,6 +465,6 @@ MANIFEST = {
             "observation points of the real code (iterator after full iteration, database after import, reopened database "
             "and the raw directives table read with plain sqlite3); feature counts show that comment, blank, FASTA and "
             "post-FASTA lines produce nothing. All interleavings of the four line kinds up to a length bound are executed "
-            "for four checklines values; longer files are random with directives placed after the inspection window. Input forms are path, gzip path and from_string, LF, CRLF and (text files) bare CR; directive/comment texts include bare '##', '#!' pragmas and characters str.splitlines() splits on; the thorough tier adds a file with more directives than SQLite accepts as bound parameters.",
+            "for four checklines values; longer files are random with directives placed after the inspection window. Input forms are path, gzip path and from_string, LF, CRLF and (text files) bare CR; directive/comment texts include bare '##', '#!' pragmas and characters str.splitlines() splits on; the thorough tier adds a file with more directives than SQLite accepts as bound parameters. Two further classes: directive texts with blanks/tabs at either end and empty tab-separated columns (recorded as the text after '##', nothing trimmed), and files holding one directive, comment or feature line of about 2^k characters up to 2 MiB (quick) / 8 MiB (thorough) - recorded whole, no extra feature.",
     "note": "Trusted: the reference classifier. Whitespace-only lines and '##FASTA' with trailing blanks are not generated.",
 }
